@@ -27,6 +27,10 @@ Definition detached_of (c0 fin : cluster) (t : list item) : list id :=
 Definition aliased_of (sc : scenario) (c0 fin : cluster) (t : list item) : list id :=
   filter (fun i => match find_obj (objs c0) i with
                    | Some c => negb (c_keep c) && pol_ok (o_policy (sc_opts sc)) (c_owner c)
+                               && negb (negb (o_destroy (sc_opts sc)) && match u_kind (uinfo_of sc i) with KNs => ns_in_use sc (sc_local sc) i | _ => false end)
+                               && forallb (fun d => existsb (fun e => match e with EPrune _ d' AOk => Nat.eqb d d' | _ => false end) (events t)
+                                                    && match last_wait t d with Some WOk => true | _ => false end)
+                                          (g_dependents (pl_graph (plan_of sc c0)) i)
                                && existsb (fun j => match find_obj (objs fin) j with
                                                     | Some c' => N.eqb (c_uid c') (c_uid c) | None => false end)
                                           (ok_applied_of (events t))
